@@ -651,7 +651,9 @@ def corpus_check(tier: str, seed: int) -> dict:
     for t in ["", " ", "\n", "//", "// c", "/* c", "/* c */", "//!", "///", "a", "a=", "a={", "a={}", 'a={"', "a={'", "a={'x", "a={'x'", "a={'x'..", "a={'x'..'", "a = { b }", "a = { 'z'..'a' }",
               'a = { ^"\u00df" | \'a\'..\'b\' }', "a = { PEEK[ } ", "a = { PEEK[1.. } ", "a = { PEEK[a..b] }", "a = { \"x\"{} }", "a = { \"x\"{,} }", "a = { \"x\"{1,2,3} }", "a = { \"x\"{99999999999999999999} }",
               "a = { #tt }", "a = { #tt= }", "a = { ! }", "a = { & }", "a = { | }", "a = { ~ }", "a = { \"\\u{110000}\" }", "a = { \"\\xZZ\" }", "a = { '\\u{D800}'..'\\u{DFFF}' }", "a = { PUSH_LITERAL(x) }",
-              "a = { PUSH() }", "= { \"x\" }", "a { \"x\" }", "a = \"x\"", "1 = { \"x\" }", "a = { \"x\" } }", "a = { (((((((((( \"x\" }"]:
+              "a = { PUSH() }", "= { \"x\" }", "a { \"x\" }", "a = \"x\"", "1 = { \"x\" }", "a = { \"x\" } }", "a = { (((((((((( \"x\" }",
+              # more digits than CPython's int() converts (4300): found by a round-4 seeding agent in the unmodified tree
+              'a = { "x"{' + "1" * 5000 + "} }", 'a = { "x"{1,' + "0" * 5000 + "2} }", "a = { PEEK[" + "1" * 5000 + "..] }", "a = { PEEK[..-" + "1" * 5000 + "] }"]:
         run(t, "hand")
     for g in valid:
         step = 1 if len(g) < 400 else (len(g) // (150 if tier == "quick" else 1500) or 1)
